@@ -7,6 +7,7 @@ NonceF == <<1, 1, 2, 2, 3, 1, 2, 3>>
 HashF == <<1, 2, 3, 4, 5, 6, 7, 8>>
 EffF == <<1, 2, 3, 4, 5, 6, 7, 8>>
 CompassF == <<1, 1, 1, 1, 1, 2, 2, 1>>
+HeightF == <<1, 1, 2, 2, 3, 1, 2, 3>>
 ApplF == <<TRUE, TRUE, TRUE, FALSE, TRUE, TRUE, TRUE, TRUE>>
 Pow3 == <<34, 33, 33>>
 H(a, r) == hist' = Append(hist, [act |-> a, args |-> r])
@@ -20,9 +21,14 @@ GSetPower == \E v \in Vals, p \in Powers : p # power[v] /\ SetPowerOf(v, p) /\ H
 GNext == GVote \/ GTally \/ GOverride \/ GActivate \/ GSetPower
 GInit == Init /\ hist = <<>>
 Last == IF hist = <<>> THEN <<>> ELSE hist[Len(hist)]
-GView == <<Last, res, last, cursor, atts, power, compass, epoch, effects>>
+GView == <<Last, res, last, cursor, atts, power, compass, epoch, lastEth, effects>>
 GConstr == Len(hist) <= MaxOps /\ epoch <= MaxEpoch
 EmitCond == Len(hist) >= 3 /\ res \in {"eb", "fail"}
 GNextC == (IF EmitCond THEN PrintT(<<"HIST", ToJson(hist)>>) ELSE TRUE) /\ GNext
+\* "re-open" family: histories that tally again after a governance override / compass activation
+EmitCondR == Len(hist) >= 3 /\ res = "eb" /\ epoch >= 1
+GVoteR == \E v \in {1, 2}, c \in Claims : Bonded(v) /\ CNonce[c] = NonceOf(v) + 1 /\ Vote(v, c) /\ H("Vote", [v |-> v, c |-> c])
+GTallyR == Tally(FALSE) /\ H("Tally", [cu |-> FALSE])
+GNextR == (IF EmitCondR THEN PrintT(<<"HIST", ToJson(hist)>>) ELSE TRUE) /\ (GVoteR \/ GTallyR \/ GOverride)
 Emit == Len(hist) = EmitAt => PrintT(<<"HIST", ToJson(hist)>>)
 =============================================================================
